@@ -458,5 +458,52 @@ def dao_window(prog: Program) -> RuleResult:
     return r
 
 
+def dao_fresh(prog: Program) -> RuleResult:
+    """A converter of collections builds the collection of the other side; it never hands back the collection it was given
+    (for an empty one that is easily missed: there is nothing to convert).  Returning the argument is accepted for None only."""
+    r = RuleResult("DAO-FRESH", "a converted collection is a new object, whatever its size", floor=1)
+    mod = prog.module(DAO)
+    n = 0
+    for f in sorted([f for f in prog.functions.values() if f.module is mod and f.cls is not None], key=lambda x: x.qual):
+        params = f.params[1:]
+        conv = None
+        for lp in [x for x in walk_local(f.node) if isinstance(x, ast.For)]:
+            if isinstance(lp.iter, ast.Name) and lp.iter.id in params and any(call_name(c) in ("from_dao", "to_dao") for c in calls_in(lp)):
+                conv = lp
+        if conv is None:
+            continue
+        n += 1
+        p = conv.iter.id
+        cfg = CFG(f.node)
+        bad = None
+        for nd in cfg.nodes:
+            if nd.kind != "stmt" or not isinstance(nd.stmt, ast.Return) or nd.stmt.value is None:
+                continue
+            v = nd.stmt.value
+            heads = [v.elts[0]] if isinstance(v, ast.Tuple) and v.elts else [v]
+            if not any(isinstance(h, ast.Name) and h.id == p for h in heads):
+                continue
+            # reassigned before?  (p = list(p) ...) - then it is not the argument any more
+            kills = {k.id for k in cfg.nodes if k.kind == "stmt" and isinstance(k.stmt, ast.Assign) and any(isinstance(t, ast.Name) and t.id == p for t in k.stmt.targets)}
+            if cfg.path_avoiding(cfg.entry, nd.id, kills) is None:
+                continue
+            guarded = False
+            for t in cfg.nodes:
+                if t.kind == "test" and isinstance(t.stmt, ast.If) and t.true_succ is not None and cfg.dominates(t.true_succ, nd.id):
+                    tt = t.stmt.test
+                    if isinstance(tt, ast.Compare) and len(tt.ops) == 1 and isinstance(tt.ops[0], ast.Is) and isinstance(tt.left, ast.Name) and tt.left.id == p \
+                            and isinstance(tt.comparators[0], ast.Constant) and tt.comparators[0].value is None:
+                        guarded = True
+            if not guarded:
+                bad = bad or nd
+        r.check(bad is None, f"{f.short}#returns-new-collection", site(f, bad.stmt) if bad else site(f), src(bad.stmt) if bad else f"converter of `{p}`",
+                "the argument itself is returned for None only",
+                f"`{p}` itself is returned on a path that is not limited to None: the reconstructed object's (empty) collection is the DAO's own instrumented list - appending to the "
+                "object's field changes the DAO, and two reconstructions share one list")
+    if n < 1:
+        raise AnalysisError("DAO-FRESH: no collection converter found in dao.py")
+    return r
+
+
 def run(prog: Program, tier: str) -> List[RuleResult]:
-    return [idkey(prog), dao_order(prog), dao_direction(prog), dao_collect(prog), dao_window(prog), dao_value_truth(prog)]
+    return [idkey(prog), dao_order(prog), dao_direction(prog), dao_collect(prog), dao_window(prog), dao_value_truth(prog), dao_fresh(prog)]
